@@ -48,7 +48,7 @@ theorem Emits.then_eq {a b c : Gw} (h1 : Emits Sn Mq E a b) (h : c.outs = b.outs
 /-! ### functions that never touch the output log -/
 @[simp] theorem setTx_outs (g : Gw) (t : Tx) : (g.setTx t).outs = g.outs := rfl
 @[simp] theorem runFinally_outs (g : Gw) (t : Tx) : (g.runFinally t).outs = g.outs := by
-  unfold runFinally; split <;> rfl
+  unfold runFinally; split <;> (try split) <;> rfl
 @[simp] theorem finishTx_outs (g : Gw) (id : Nat) : (g.finishTx id).outs = g.outs := by
   unfold finishTx; split <;> (try split) <;> simp
 @[simp] theorem fail_outs (g : Gw) (c : EndCls) : (g.fail c).outs = g.outs := by
@@ -193,7 +193,7 @@ theorem Step.newTx (g : Gw) (k : TxKind) (key : TxKey) (tm : Option Nat) (h : WF
   · exact h w
 
 theorem Step.runFinally (g : Gw) (t : Tx) : Step Sn Mq E g (g.runFinally t) := by
-  unfold Gw.runFinally; split <;> exact Step.of_eq rfl rfl rfl
+  unfold Gw.runFinally; split <;> (try split) <;> first | exact Step.refl g | exact Step.of_eq rfl rfl rfl
 
 theorem Step.finishTx (g : Gw) (id : Nat) : Step Sn Mq E g (g.finishTx id) := by
   unfold Gw.finishTx
